@@ -67,7 +67,7 @@ fn is_opaque_or_true_or_tt(e: &Expr, val: u8) -> bool {
     match val { 0 => is_opaque(e, 1), 1 => matches!(e, Expr::Lit(Lit::Bool(Bool { value: true, .. }))), _ => is_strlit(e, "<tt>") }
 }
 macro_rules! plain { ($($n:ident: $k:expr, $v:expr;)*) => { $(#[kani::proof] #[kani::unwind(3)]
-    #[kani::stub(std::ptr::drop_in_place, no_drop)] #[kani::stub(core::ptr::drop_glue, no_glue)]
+    #[kani::stub(std::ptr::drop_in_place, no_drop)] #[kani::stub(core::ptr::drop_glue, no_glue)] #[kani::stub(std::vec::Vec::extend_from_slice, extend_from_slice_model)]
     #[kani::stub(crate::directive::parse_directive, pd_model)] #[kani::stub(crate::util::transform_text, tt_marker)]
     #[kani::stub(crate::util::is_jsx_attr_value_constant, const_model)] #[kani::stub(alloc::fmt::format, fmt_marker)]
     fn $n() { plain_attr::<$k, $v>() })* } }
@@ -78,7 +78,7 @@ plain! {
 }
 // namespaced name needs the real format! ("{}:{}"): own harness without the format stub
 #[kani::proof] #[kani::unwind(3)]
-#[kani::stub(std::ptr::drop_in_place, no_drop)] #[kani::stub(core::ptr::drop_glue, no_glue)]
+#[kani::stub(std::ptr::drop_in_place, no_drop)] #[kani::stub(core::ptr::drop_glue, no_glue)] #[kani::stub(std::vec::Vec::extend_from_slice, extend_from_slice_model)]
 #[kani::stub(crate::directive::parse_directive, pd_model)] #[kani::stub(crate::util::transform_text, tt_marker)]
 #[kani::stub(crate::util::is_jsx_attr_value_constant, const_model)]
 fn attr_namespaced_dyn() { plain_attr::<11, 0>() }
@@ -154,14 +154,14 @@ fn arrow_assigns_event_to(a: &ArrowExpr, target: u32) -> bool {
     p_ok && b_ok
 }
 macro_rules! darm { ($($n:ident: $k:expr;)*) => { $(#[kani::proof] #[kani::unwind(3)]
-    #[kani::stub(std::ptr::drop_in_place, no_drop)] #[kani::stub(core::ptr::drop_glue, no_glue)]
+    #[kani::stub(std::ptr::drop_in_place, no_drop)] #[kani::stub(core::ptr::drop_glue, no_glue)] #[kani::stub(std::vec::Vec::extend_from_slice, extend_from_slice_model)]
     #[kani::stub(crate::directive::parse_directive, pd_model)] #[kani::stub(crate::util::transform_text, tt_marker)]
     #[kani::stub(crate::util::is_jsx_attr_value_constant, const_model)] #[kani::stub(alloc::fmt::format, fmt_marker)]
     fn $n() { directive_arm::<$k>() })* } }
 darm! { darm_normal: 0; darm_html: 1; darm_text: 2; darm_vmodel_plain: 3; darm_vmodel_computed: 5; darm_vmodel_nullarg: 6; darm_slots_some: 7; darm_slots_none: 8; }
 // string argument: the generated keys `fooModifiers` / `onUpdate:foo` are built with the real format!
 #[kani::proof] #[kani::unwind(3)]
-#[kani::stub(std::ptr::drop_in_place, no_drop)] #[kani::stub(core::ptr::drop_glue, no_glue)]
+#[kani::stub(std::ptr::drop_in_place, no_drop)] #[kani::stub(core::ptr::drop_glue, no_glue)] #[kani::stub(std::vec::Vec::extend_from_slice, extend_from_slice_model)]
 #[kani::stub(crate::directive::parse_directive, pd_model)] #[kani::stub(crate::util::transform_text, tt_marker)]
 #[kani::stub(crate::util::is_jsx_attr_value_constant, const_model)]
 fn darm_vmodel_strarg() { directive_arm::<4>() }
